@@ -29,34 +29,26 @@ func c05unchanged(b, keep []byte) {
 func VH_C05_PSIAccessors() {
 	op := vrt.Choose("op", 0, 6)
 	b, keep := c05bytes(8)
+	// reached before the call: for the shortest inputs the accessors without error result end in a
+	// listed known panic (C05-F1..F6), so nothing after the call is reachable there
+	vrt.Reach("called")
 	switch op {
 	case 0:
-		if len(b) > 0 {
-			_ = PointerField(b)
-		}
+		_ = PointerField(b)
 	case 1:
-		if len(b) > 0 {
-			_ = TableID(b)
-		}
+		_ = TableID(b)
 	case 2:
-		if len(b) > 0 {
-			_ = SectionSyntaxIndicator(b)
-		}
+		_ = SectionSyntaxIndicator(b)
 	case 3:
-		if len(b) > 0 {
-			_ = PrivateIndicator(b)
-		}
+		_ = PrivateIndicator(b)
 	case 4:
-		if len(b) > 0 {
-			_ = SectionLength(b)
-		}
+		_ = SectionLength(b)
 	case 5:
 		_, _ = TableHeaderFromBytes(b)
 	case 6:
 		_, _ = ExtractCRC(b)
 	}
 	c05unchanged(b, keep)
-	vrt.Reach("end")
 }
 
 func VH_C05_PAT() {
@@ -172,26 +164,5 @@ func VH_C05_Descriptors() {
 		_ = es.IsTTMLSubtitling()
 	}
 	c05unchanged(body, keep)
-	vrt.Reach("end")
-}
-
-func VH_C05_Filter() {
-	vrt.SetUnwind(400, true)
-	n := vrt.Choose("packets", 1, 2)
-	var in []*packet.Packet
-	var keep []packet.Packet
-	for i := 0; i < n; i++ {
-		var p packet.Packet
-		vrt.Bytes("p", p[:24])
-		for j := 24; j < 188; j++ {
-			p[j] = 0xFF
-		}
-		in = append(in, &p)
-		keep = append(keep, p)
-	}
-	_, _ = FilterPMTPacketsToPids(in, []int{vrt.Int("pid")})
-	for i := range in {
-		vrt.Assert(*in[i] == keep[i], "filtering never modifies the input packets")
-	}
 	vrt.Reach("end")
 }
